@@ -97,7 +97,7 @@ def c11_chunk(args):
             try:
                 d1, d2, d3 = int(ans[i - 2]), int(ans[i - 1]), int(got)
             except ValueError:
-                bad.append(("panic", "conversion panicked: %s" % got, qs[i]))
+                bad.append(("panic", "conversion panicked: %s" % got, qs[i]) if "PANIC" in got else ("conversion", "the two layers of duration_since disagree: %s" % got, qs[i]))
                 continue
             if not (d3 - (d1 + d2) in (0, 1)):
                 bad.append(("additivity", "d(a,c)=%d, d(a,b)+d(b,c)=%d for a=%d b=%d c=%d f=%d" % (d3, d1 + d2, a, b, c, f), qs[i]))
